@@ -12,6 +12,7 @@ Top-level postcondition, from the property text, stated over boundaries (ghost a
 from __future__ import annotations
 
 import ast
+import json
 
 import z3
 
@@ -373,6 +374,156 @@ def _filters(ctx):
     ctx.add(core.decided('_submit/groups-submitted-before-jobs', ok, repr(calls), kind='scan'))
 
 
+def _submit_native():
+    import os
+    script = open(os.path.join(os.path.dirname(__file__), 'native', 'c19_submit_replay.py')).read()
+    return core.run_native(script, {}, timeout=300)
+
+
+def _bindings(fn, name):
+    """every statement / expression of fn that binds the local `name` (parameters are not bindings)"""
+    return [x for x in ast.walk(fn) if isinstance(x, ast.Name) and x.id == name and isinstance(x.ctx, (ast.Store, ast.Del))]
+
+
+def _call_args(call, callee):
+    """parameter name -> argument node of a `self.m(...)` call, by the REAL signature of m"""
+    names = [a.arg for a in callee.args.posonlyargs + callee.args.args][1:]
+    out = dict(zip(names, call.args))
+    for k in call.keywords:
+        if k.arg is not None:
+            out[k.arg] = k.value
+    if any(isinstance(a, ast.Starred) for a in call.args) or any(k.arg is None for k in call.keywords):
+        return None
+    return out
+
+
+def _submit_call_site(ctx):
+    """The clause of the property at the call site: every spec-carrying request of ONE `_submit(max_bunch_bytesize, max_bunch_size)`
+    is built from bunches that THIS call computed with THIS call's limits from the pending specs.  Decided by def-use on the
+    real AST of Batch._submit / Batch.submit (names of locals are irrelevant):
+      - senders = the methods of Batch with a parameter annotated with SpecBytes (discovered); every sender call in `_submit`
+        passes `v` or `v[<const>]` where the local v has exactly ONE binding in the whole function, a top-level
+        (unconditional) statement that precedes every sender call, whose value - through plain copies - is the call
+        `self._create_bunches(self._job_group_specs, self._job_specs, <p1>, <p2>)`;
+      - p1 / p2 are parameters of `_submit`, never rebound, and go to `_create_bunches`' max_bunch_bytesize / max_bunch_size;
+      - `submit` hands its own, never rebound, max_bunch_bytesize / max_bunch_size to those two parameters in every `_submit` call.
+    A failure is replayed by contracts/native/c19_submit_replay.py (real Batch, recording client, failed submit then retry with
+    other limits), which is also run as a BOUNDED stand-in on the unchanged tree."""
+    tree = ast.parse(core.read_repo(PATH))
+    cls = [n for n in tree.body if isinstance(n, ast.ClassDef) and n.name == 'Batch']
+    if not cls:
+        raise core.Undecided('anchor-moved: class Batch not found')
+    methods = {n.name: n for n in cls[0].body if isinstance(n, (ast.FunctionDef, ast.AsyncFunctionDef))}
+    for need in ('_submit', 'submit', '_create_bunches'):
+        if need not in methods:
+            raise core.Undecided('anchor-moved: Batch.%s not found' % need)
+    sub, top, cb = methods['_submit'], methods['submit'], methods['_create_bunches']
+    ctx.under_contract(PATH, 'Batch._submit')
+    ctx.under_contract(PATH, 'Batch.submit')
+    senders = {}
+    for name, m in methods.items():
+        if name == '_create_bunches':
+            continue
+        ps = [a.arg for a in m.args.posonlyargs + m.args.args + m.args.kwonlyargs if a.annotation is not None and 'SpecBytes' in ast.unparse(a.annotation)]
+        if ps:
+            senders[name] = ps
+    params = [a.arg for a in sub.args.posonlyargs + sub.args.args + sub.args.kwonlyargs]
+    problems = []
+    seen = 0
+    limit_params = None
+
+    def origin(name, before, depth=0):
+        """the `_create_bunches` call that the local `name` stands for, or a reason why not"""
+        bs = _bindings(sub, name)
+        if name in params:
+            return None, '%s is a parameter of _submit, not computed by this call' % name
+        if len(bs) != 1:
+            return None, 'local %s has %d bindings in _submit (exactly one expected)' % (name, len(bs))
+        stmt = [x for x in sub.body if isinstance(x, (ast.Assign, ast.AnnAssign)) and any(t is bs[0] for t in (x.targets if isinstance(x, ast.Assign) else [x.target]))]
+        if not stmt:
+            return None, 'the binding of %s (line %d) is not an unconditional top-level assignment of _submit' % (name, bs[0].lineno)
+        if stmt[0].end_lineno >= before:
+            return None, 'the binding of %s (line %d) does not precede the request at line %d' % (name, bs[0].lineno, before)
+        v = stmt[0].value
+        if isinstance(v, ast.Name) and depth < 8:
+            return origin(v.id, stmt[0].lineno, depth + 1)
+        if isinstance(v, ast.Call) and ast.unparse(v.func) == 'self._create_bunches':
+            return v, None
+        return None, '%s = %s (line %d) is not a call of self._create_bunches' % (name, ast.unparse(v)[:80] if v is not None else None, stmt[0].lineno)
+
+    for x in ast.walk(sub):
+        if not (isinstance(x, ast.Call) and isinstance(x.func, ast.Attribute) and isinstance(x.func.value, ast.Name) and x.func.value.id == 'self' and x.func.attr in senders):
+            continue
+        amap = _call_args(x, methods[x.func.attr])
+        if amap is None:
+            problems.append('line %d: star-arguments in %s' % (x.lineno, ast.unparse(x)[:80]))
+            continue
+        for pn in senders[x.func.attr]:
+            seen += 1
+            a = amap.get(pn)
+            base = a.value if isinstance(a, ast.Subscript) and isinstance(a.slice, ast.Constant) else a
+            if not isinstance(base, ast.Name):
+                problems.append('line %d: %s gets %s, not a local computed by this call' % (x.lineno, x.func.attr, ast.unparse(a) if a is not None else None))
+                continue
+            call, why = origin(base.id, x.lineno)
+            if call is None:
+                problems.append('line %d: %s(%s): %s' % (x.lineno, x.func.attr, ast.unparse(a), why))
+                continue
+            cmap = _call_args(call, cb) or {}
+            got = {k: ast.unparse(v) for k, v in cmap.items()}
+            if got.get('job_group_specs') != 'self._job_group_specs' or got.get('job_specs') != 'self._job_specs':
+                problems.append('line %d: bunches are not computed from the pending specs: %s' % (call.lineno, got))
+            lp = (got.get('max_bunch_bytesize'), got.get('max_bunch_size'))
+            for q in lp:
+                if q not in params or _bindings(sub, q):
+                    problems.append('line %d: limit argument %s of _create_bunches is not an unmodified parameter of _submit' % (call.lineno, q))
+            if limit_params is None:
+                limit_params = lp
+            elif limit_params != lp:
+                problems.append('line %d: limits %s differ from %s' % (call.lineno, lp, limit_params))
+    # nothing else in _submit may reach the wire with specs: spec-carrying requests are made by the senders only
+    for x in ast.walk(sub):
+        if isinstance(x, ast.Attribute) and x.attr in ('_post', '_patch', '_submit_spec_bunch'):
+            problems.append('line %d: _submit talks to the server directly (%s)' % (x.lineno, ast.unparse(x)))
+    ok = not problems and seen > 0
+    o = core.decided('_submit/spec-requests-are-built-from-bunches-of-this-call-with-this-calls-limits', ok, '; '.join(problems) or '%d sender arguments traced to one _create_bunches call with limits %s' % (seen, limit_params,), kind='scan')
+    ctx.add(o)
+    # submit -> _submit: the caller's limits arrive unchanged
+    if limit_params is None:
+        # the tracing above failed: which parameters of _submit are the limits is still read off its _create_bunches call(s)
+        cands = set()
+        for x in ast.walk(sub):
+            if isinstance(x, ast.Call) and ast.unparse(x.func) == 'self._create_bunches':
+                got = {k: ast.unparse(v) for k, v in (_call_args(x, cb) or {}).items()}
+                cands.add((got.get('max_bunch_bytesize'), got.get('max_bunch_size')))
+        if len(cands) == 1 and all(q in params for q in list(cands)[0]):
+            limit_params = list(cands)[0]
+    problems2 = []
+    calls = [x for x in ast.walk(top) if isinstance(x, ast.Call) and ast.unparse(x.func) == 'self._submit']
+    tparams = [a.arg for a in top.args.posonlyargs + top.args.args + top.args.kwonlyargs]
+    for x in calls:
+        amap = _call_args(x, sub) or {}
+        for formal, actual in zip(limit_params or (None, None), ('max_bunch_bytesize', 'max_bunch_size')):
+            a = amap.get(formal)
+            if not (isinstance(a, ast.Name) and a.id == actual and actual in tparams and not _bindings(top, actual)):
+                problems2.append('line %d: _submit parameter %s gets %s, not submit\'s unmodified %s' % (x.lineno, formal, ast.unparse(a) if a is not None else None, actual))
+    ok2 = bool(calls) and not problems2 and limit_params is not None
+    o2 = core.decided('submit/limits-of-the-call-reach-_submit-unchanged', ok2, '; '.join(problems2) or '%d calls' % len(calls), kind='scan')
+    ctx.add(o2)
+    if not (ok and ok2):
+        # replay on the real code: the obligations are decided on the AST; the failing input (if the scenarios reach one) goes into the evidence
+        r = _submit_native()
+        for ob in (o, o2):
+            if ob.status == 'failed':
+                ob.info['__replay__'] = r
+        ctx.extra['submit_native_replay'] = r
+    else:
+        r = _submit_native()
+        if 'error' in r:
+            raise core.CheckerBug('c19_submit_replay.py failed: %s' % (r.get('stderr') or r.get('error'))[-400:])
+        ctx.bounded_standin('submit-retry-scenarios', 'real Batch against a recording client: %s two-call scenarios (first call succeeds or is rejected on its first spec request, second call with other limits, 0..2 groups, 1..9 jobs, 4 limit pairs each)' % r.get('scenarios'), r.get('scenarios', 0), not r.get('confirmed'), json.dumps(r, default=str)[:600])
+
+
 def make_replayer(eng):
     def replay(model, obl):
         if model is None:
@@ -489,6 +640,7 @@ def build(ctx):
     eng2.run()
     ctx.witness_search = lambda: core.run_native(REPLAY, {'search': True})
     _filters(ctx)
+    _submit_call_site(ctx)
     ctx.assume('orjson.dumps is an uninterpreted function of the spec (only the length of its result matters)')
     ctx.assume('class SpecBytes is modelled by a constructor UF whose axioms are exactly the postconditions proved for SpecBytes.__init__ and SpecBytes.n_bytes')
     ctx.assume('P and W are definitional spec functions (prefix sums of the byte sizes); their defining axioms are assumed, being a definition by recursion on naturals')
